@@ -1,7 +1,7 @@
 #!/bin/bash
 # usage: sweep.sh "<seeds>" [tier]  — every registered check for each seed on the current tree; evidence redirected
-cd /verif
+cd "$(dirname "$0")/.."
 ids=$(python3 -c "import json;print(' '.join(c['property_id'] for c in json.load(open('MANIFEST.json'))['checks']))")
 for s in $1; do for p in $ids; do
-  VERIF_SEED=$s VERIF_EVIDENCE_DIR=/verif/.work/sweepev ./check $p --tier ${2:-quick} 2>&1 | grep -E "^(OK|VIOLATION)" -A3 | grep -v "^KNOWN" | cut -c1-400
+  VERIF_SEED=$s VERIF_EVIDENCE_DIR=$PWD/.work/sweepev ./check $p --tier ${2:-quick} 2>&1 | grep -E "^(OK|VIOLATION)" -A3 | grep -v "^KNOWN" | cut -c1-400
 done; done
